@@ -262,3 +262,37 @@ CLAIMED = {
 NOT_APPLICABLE = {
     "C16": "query-result equivalence under rewriting needs execution or a SQL semantics; no static counterpart in reach (DESIGN §5)",
 }
+
+# Rules added after independent authors' seeded changes (rounds 2 and 3; DESIGN.md 9.10 - 9.12).  Appended to the
+# claim text by tools/gen_manifest.py so that the manifest says what the check decides today.
+LATER_RULES = {
+    "C01": "R01c placeholder emission never depends on the indent switch; R01d a split element is cut where the previous piece ended.",
+    "C02": "R02b an unmatched remainder is empty, non-code or wrapped as unparsable; R02e(3) an unparsable section starts at the first code token after the matched part.",
+    "C03": "R03d a node's position is the hull of all its children; R03e buffered metas are emitted in grammar order.",
+    "C04": "R04f no next() without default / R04g no mis-sized split unpacking outside the rule packages; R04h a variant's tree is known to exist where it is linted.",
+    "C05": "R05d flag forwarding in recursive walks; R05e constant subscripts guarded; R05f no whitespace segment from an empty text; R05g every assert discharged, typing-only or reviewed; R05h no fix with an empty edit.",
+    "C07": "R07d per-variant working state; R07e left-strip handling for every opening token; R07f field token rebuilt in format-grammar order; R07g override delta measured on the rendered text; R07h adjusted slices carry the running delta.",
+    "C08": "R08a also: environment policies stay at Jinja's defaults; R08d stand-ins never win over the user's context (bulk merges included).",
+    "C09": "R09g overlapping occurrences counted; R09h context layered default < config < override; R09i a matched placeholder is a templated slice.",
+    "C10": "R10e scan bounds; R10f every templated slice is a conflict; R10g break safety by literalness only; R10h JJ01 tag surgery; R10i end of file is the end of the last raw slice.",
+    "C11": "R11e autodetect judges the whole file, never a slice; R11f string input reaches render_string as given.",
+    "C12": "R12d what RF06 unquotes lexes back as one word; R12e borrowed whitespace goes on the gap side of a pending insertion.",
+    "C14": "R14c comment guard of respace; R14d LT09 never moves a target behind a comment; R14e LT12's trailing-newline scan stops at comments.",
+    "C15": "R15c CP05 child iteration; R15d no keyword parser matches quoted text.",
+    "C18": "R18e templating errors are kept on every path of the variant loop; 'unfiltered' counts also keep warning-level errors.",
+    "C19": "R19d sibling drivers share options; R19e records built from get_violations(filter_warning=False).",
+    "C20": "R20f restricted noqa map built from the full map; R20g the source fallback counts lines by the newline literal.",
+    "C21": "R21g dialect collections never changed in place by rules; R21h the selector expander drops no selector; R21i derived selection lists recomputed on every path.",
+    "C22": "R22g parse-error counts reach the fix drivers' exit status only under not fix_even_unparsable.",
+    "C23": "R23e per-record mappings carry nothing across iterations; R23f line fields from line numbers, column fields from columns.",
+    "C24": "R24g a Linter keeps no state between files.",
+    "C25": "R25e inner ignore files loaded for every walked directory; R25h every outer ignore source tried; R25i same-name options forwarded from the parameter of that name.",
+    "C27": "R27d copy() deep-copies; R27e nested_combine stores every key; R27f unset command-line options do not override config files.",
+    "C28": "R28d per-variant tree output; R28e record values set in the iteration that uses them; R28f comment / non-comment lists partition the children; R28g type and text printed in full.",
+    "C29": "R29c matchable class references; R29d a dialect module changes only its own dialect object.",
+    "C30": "R30e same-range patches conflict unless identical; R30f / R30h the slicer's equality pop (after the flush, on the equality only); R30g dedupe key = range + text.",
+    "C31": "R31c also: an unrecognised newline finder is judged for splitlines() before the table rule gives up.",
+    "C32": "R32d templater objects keep nothing from a file; R32e keyed memos identify every input; R32f setattr only on per-call objects.",
+    "C33": "R33a also: the seen set only grows; R33c variant / templated-file coherence; R33d CLI listing sorted at the print site; R33e noqa filters preserve order.",
+    "C34": "R34b limit read from the file's own config; R34d skip-fail escalation on every exit.",
+}
